@@ -46,6 +46,14 @@ def encb(b):
     return '.'.join('%x' % c for c in b)
 
 
+def short(x, n=60):
+    """repr of a long text / byte string with the middle elided (for messages and finding keys)"""
+    r = repr(x)
+    if len(r) <= 2 * n + 20:
+        return r
+    return '%s...<%d>...%s' % (r[:n], len(x), r[-n:])
+
+
 # ------------------------------------------------------------------ driver
 
 def run_driver(lines, timeout=3600):
